@@ -192,9 +192,10 @@ impl Peer {
                 props: plan.connack_props.clone(),
             }),
             Owed::PubAck(p) => Pkt::PubAck(Ack::with(*p, code_for(*p))),
-            // a PUBREC >= 0x80 would end the exchange without PUBCOMP: keep PUBREC successful
-            Owed::PubRec(p) => Pkt::PubRec(Ack::ok(*p)),
-            Owed::PubComp(p) => Pkt::PubComp(Ack::ok(*p)),
+            // a PUBREC >= 0x80 refuses the publish; the library still lets the application release the receipt
+            // (PUBREL), which a broker answers with PUBCOMP "packet identifier not found"
+            Owed::PubRec(p) => Pkt::PubRec(if plan.refuse_pubrec { Ack::with(*p, code_for(*p)) } else { Ack::ok(*p) }),
+            Owed::PubComp(p) => Pkt::PubComp(if plan.refuse_pubrec && code_for(*p) >= 0x80 { Ack::with(*p, 0x92) } else { Ack::ok(*p) }),
             Owed::SubAck(p, n) => Pkt::SubAck(SubAck {
                 pid: *p,
                 props: Vec::new(),
